@@ -8,11 +8,11 @@
     C09_once_statement                     "no source contributes one harmonic at two analysed frequencies" — after
     C09_once_counterexample                fix 6e56e9e still FALSE for chains (0, 0.0009, 0.0011 with w_res 0.001);
     C09_once_partial                       true when distinct analysed frequencies are > 2·w_res apart
-    C09_line                               the one-sided series carries the per-frequency phasors
+    C09_line                               bookkeeping only: the one-sided series passes axis and values through (rfl)
     C09_time_function, C09_time_value      |X|·cos(θ + arg X) = Re(X·e^{jθ}) = X.re·cos θ − X.im·sin θ  (over ℂ)
-    C09_kcl_instant                        KCL per frequency ⇒ KCL for the time functions at every instant
-    C09_superpose_sources                  line-wise superposition ⇒ superposition of the time functions
-    C09_source_reconstruction              a line A·e^{jφ} contributes A·cos(k w0 t + φ)
+    C09_kcl_instant                        list algebra (no model term): KCL per frequency ⇒ KCL of the summed lines
+    C09_superpose_sources                  list algebra (no model term): line-wise ⇒ time-function superposition
+    C09_source_reconstruction              one-term identity only: a line A·e^{jφ} contributes A·cos(θ + φ)
     C09_two_sided, _dc, _lines             `_series` after fix 0a2e57e: c(±w_k) = X_k/2 resp. conj X_k/2, c(0) = X₀
     C09_kcl_instant_circuit                composed with C01_sound + C07: networks of `transformCircuit`, any certificates ⇒
                                            the physical-current time functions obey KCL at every node, every instant
@@ -261,9 +261,11 @@ theorem C09_once_partial (ws : List ℚ) (wres : ℚ) (hres : 0 ≤ wres)
 
 /-! ## spectral lines and time functions -/
 
-/-- **C09 (line).**  The one-sided series reports, at the `k`-th analysed frequency, the value
-the per-frequency (peak) phasor solution reports there: frequency axis and line values are
-passed through unchanged, position by position. -/
+/-- **C09 (line) — bookkeeping only.**  `oneSided` passes the frequency axis and the list of line values
+through unchanged, position by position (`rfl`; true for any list `X`).  That the `k`-th value handed to it
+IS the peak phasor of C02 at `w_k` is not a Lean statement: it holds by construction of
+`FrequencyDomainSolution` (`ComplexSolution(w_k, peak_values=True)`) and is checked by the
+correspondence / oracle of `harness/props/c09.py` (line vs `ComplexSolution`, harmonic lines vs `fourier_series`). -/
 theorem C09_line (ws : List ℚ) (X : List GQ) (k : ℕ) :
     (oneSided ws X).1[k]? = ws[k]? ∧ (oneSided ws X).2[k]? = X[k]? := ⟨rfl, rfl⟩
 
@@ -286,9 +288,12 @@ theorem C09_time_value (X : ℂ) (θ : ℝ) :
 theorem lineValue_eq (X : GQ) (c s : ℚ) : lineValue X c s = X.re * c - X.im * s := rfl
 
 open Complex in
-/-- **C09 (a periodic source's own line).**  A line `A·e^{jφ}` with *real* amplitude `A` of either
-sign (the harmonic `amplitude(k)`, `phase(k)` of C08) contributes `A·cos(θ + φ)`; summed over
-`k ≤ ⌊w_max/w0⌋` with `θ = k·w0·t` this is the truncated Fourier sum of the source. -/
+/-- **C09 (a periodic source's own line) — the one-term identity only.**  A line `A·e^{jφ}` with *real*
+amplitude `A` of either sign contributes `A·cos(θ + φ)` to a time function.  No sum over harmonics, no
+truncation bound and no term of the model occur in this statement: that the source's lines are the harmonics
+`amplitude(k)·e^{j·phase(k)}` of C08 for `k ≤ ⌊w_max/w0⌋`, and that the reconstructed waveform approaches the
+source's waveform up to the truncation (Parseval tail), is established by the oracle of
+`harness/props/c09.py` only (`check_harmonic_lines`, `check_reconstruction`). -/
 theorem C09_source_reconstruction (A φ θ : ℝ) :
     ((A : ℂ) * exp (φ * I) * exp (θ * I)).re = A * Real.cos (θ + φ) := by
   rw [mul_assoc, ← Complex.exp_add, ← add_mul, ← ofReal_add, re_ofReal_mul, exp_ofReal_mul_I_re,
@@ -299,7 +304,8 @@ theorem re_list_sum (l : List ℂ) : l.sum.re = (l.map Complex.re).sum := by
   | nil => simp
   | cons a l ih => simp [ih]
 
-/-- **C09 (Kirchhoff's current law at every instant).**  `lines` lists the analysed
+/-- **C09 (Kirchhoff's current law at every instant) — list algebra, no model term.**  (The statement about the
+networks of `transformCircuit` and the reported currents is `C09_kcl_instant_circuit`.)  `lines` lists the analysed
 frequencies: for each, the unit `u = e^{j w t}` and the physical branch currents `J b` of that
 frequency's solution.  If Kirchhoff's current law holds at node `n` in every single-frequency
 solution (C01), it holds for the time functions `i_b(t) = Σ_k Re(J_k b · u_k)` — for every
@@ -329,7 +335,10 @@ theorem C09_kcl_instant {B : Type} (branches : List B) (inc : B → ℝ) (lines 
     rw [mul_assoc, Complex.re_ofReal_mul]
   rw [this, h, zero_mul, Complex.zero_re]
 
-/-- **C09 (superposition of sources).**  If at every analysed frequency the line is the sum of the
+/-- **C09 (superposition of sources) — list algebra, no model term.**  (The statement composed with C01/C04 is
+`C09_superpose_sources_reported`: potentials and voltages only, for per-frequency networks given in skeleton form
+`withSrc bs s`; that the code's networks for "each source alone" have that form is not proved.)
+If at every analysed frequency the line is the sum of the
 lines obtained with each source alone (C04 at that frequency — which requires that no other
 frequency within the resolution is analysed separately, `C09_once_partial`), the time function
 is the sum of the time functions with each source alone. -/
